@@ -20,6 +20,10 @@ enum Act {
     Restart,
 }
 
+/// shard id used for the generator exploration: its low bits are zero, so that anything spilling
+/// out of the 12-bit sequence field shows in the tag
+const SHARD: u16 = 8;
+
 fn decode(id: u64) -> (u64, u64, u64) {
     (id >> 22, (id >> 12) & 0x3ff, id & 0xfff)
 }
@@ -146,10 +150,10 @@ pub fn check(tier: &str) -> i32 {
             let mut p2 = path.clone();
             p2.push(*a);
             transitions += 1;
-            let (ids, gdbg, clock, epochs) = run_path(&p2, 3);
+            let (ids, gdbg, clock, epochs) = run_path(&p2, SHARD);
             // shard bits of every id
-            if let Some(bad) = ids.iter().find(|i| decode(**i).1 != 3) {
-                violations.push((p2.clone(), format!("id {bad} does not carry shard 3")));
+            if let Some(bad) = ids.iter().find(|i| decode(**i).1 != SHARD as u64) {
+                violations.push((p2.clone(), format!("id {bad} does not carry shard {SHARD}")));
                 continue;
             }
             if let Some(i) = first_bad(&ids) {
